@@ -121,6 +121,7 @@ func (st *Runtime) YieldBlock(name string, context interface{}) {
 		st.context = reflect.ValueOf(context)
 		st.executeList(block.List)
 		st.context = current
+		return // the block has been rendered with the given context; do not render it again below
 	}
 
 	st.executeList(block.List)
